@@ -168,3 +168,11 @@ Print Assumptions C09_held_invariant.
 
 Example C09_hq_ok_initial : forall qs, hq_ok (mkHq qs None []).
 Proof. intros qs. split; [reflexivity|exact I]. Qed.
+
+(* Transcoder(charset, errors).transcode_query decodes strictly whatever `errors` is (the model has no such
+   parameter); its hypothesis "the codec returns text" holds of the ascii codec the correspondence uses *)
+Theorem C09_decode_charset_ascii : forall q l,
+  parse_qsl_text ascii_decode_strict q = Ok l -> mem_n 61 q = true ->
+  exists q', transcode_query ascii_decode_strict q = Ok q' /\ parse_utf8 q' = Ok l.
+Proof. exact (transcode_same_pairs ascii_decode_strict ascii_decoder_text). Qed.
+Print Assumptions C09_decode_charset_ascii.
